@@ -37,6 +37,10 @@ def shards(tier):
                     continue
                 out.append(dict(part="C", dev=dev, op=op, sgeo=sg, dgeo=dg, k=2 if op != "distribute" else 1, steps=2 if tier == "quick" else 3,
                                 ncand=2 if tier == "quick" else 4, washes=[1], partition_by="auto"))
+        # transfer within one labware into the same cavity (same well / another virtual row of the column): the removal is still checked
+        for sg, cands in (("p2x2", [[0], [0]]), ("t3x2", [[0], [1]])):
+            out.append(dict(part="C", dev=dev, op="transfer", sgeo=sg, dgeo=sg, same=True, k=1, steps=1, washes=[1], partition_by="auto", cands=cands,
+                            wl_max=common.BIG * 2, same_cavity=True))
         # distribute within ONE trough: the source column is also a destination, followed by a cavity that may overflow
         out.append(dict(part="C", dev=dev, op="distribute", sgeo="t3x2", dgeo="t3x2", same=True, k=1, steps=1, washes=[1], partition_by="auto",
                         uniq_dev="none", dsels=[[0, 3], [3, 0], [1, 4]]))
@@ -118,6 +122,12 @@ def judge(ctx, p, outcome):
     W = ctx.ctx["W"]
     if kind == "ok":
         ctx.reach("C:ok")
+        if p.get("same_cavity"):
+            # one unsplit step out of and back into one cavity: the aspiration must have been acceptable on its own
+            (rack, wid, _, v) = [x for x in W.named if x[2] < 0][0]
+            key = (rack, W.geo[rack].real_of(wid))
+            ctx.prove(ctx.implies(v > 0, ctx.le(W.labs[rack].min_volume, W.pre[key] - v)),
+                      "C02: a removal that undercuts min_volume returned normally (transfer into the same cavity)")
         added, removed, amount = set(), set(), {}
         for rack, wid, sign, v in W.named:
             key = (rack, W.geo[rack].real_of(wid))
